@@ -1295,7 +1295,28 @@ func r6PathWrittenByPathstr(w *World, r *Report, rule string) {
 // r6HasCfg (R18.14): a choice or case has configuration as soon as one of its
 // members is among the configured names, whatever kind of node that member is.
 func r6HasCfg(w *World, r *Report, rule string) {
-	f := w.SSAFunc(w.Func("schema", "hasCfg"))
+	var f *ssa.Function
+	if hf := w.tryFunc("schema", "hasCfg"); hf != nil {
+		f = w.SSAFunc(hf)
+	}
+	if f == nil {
+		// folded into the checker the decorator hands to IsActiveDefault
+		dl, _ := c18DefaultLoop(w)
+		isActive := w.SSAFunc(w.Func("schema", "IsActiveDefault"))
+		rsym := NewSym(w)
+		callsWithCtx(dl, 2, func(c *ssa.Call, ctx *symCtx) {
+			if c.Call.StaticCallee() != isActive {
+				return
+			}
+			arg := rsym.Resolve(c.Call.Args[len(c.Call.Args)-1], ctx)
+			if ct, ok := arg.(*ssa.ChangeType); ok {
+				arg = rsym.Resolve(ct.X, ctx)
+			}
+			if mc, ok := arg.(*ssa.MakeClosure); ok {
+				f, _ = mc.Fn.(*ssa.Function)
+			}
+		})
+	}
 	if f == nil {
 		panic(undecided{"schema.hasCfg"})
 	}
